@@ -143,6 +143,7 @@ class NodePrintVisitor(xtuml.NodePrintVisitor):
 
 class ActionWalker(xtuml.Walker):
     domain = None
+    instance = None
     return_value = None
     
     def __init__(self, domain):
@@ -164,6 +165,16 @@ class ActionWalker(xtuml.Walker):
                                        'unsupported statement',
                                         node.character_stream.splitlines()[0]))
             
+    def find_instance(self, name):
+        '''
+        Find an instance handle by its variable name; self refers to the
+        instance an action is executed on.
+        '''
+        if self.instance is not None and name.lower() == 'self':
+            return self.instance
+        
+        return self.symtab.find_symbol(name)
+    
     def accept_BodyNode(self, node):
         self.symtab.enter_scope()
         
@@ -209,33 +220,33 @@ class ActionWalker(xtuml.Walker):
         self.domain.new(node.key_letter)
     
     def accept_DeleteNode(self, node):
-        inst = self.symtab.find_symbol(node.variable_name)
+        inst = self.find_instance(node.variable_name)
         xtuml.delete(inst)
     
     def accept_RelateNode(self, node):
-        inst1 = self.symtab.find_symbol(node.from_variable_name)
-        inst2 = self.symtab.find_symbol(node.to_variable_name)
+        inst1 = self.find_instance(node.from_variable_name)
+        inst2 = self.find_instance(node.to_variable_name)
         
         xtuml.relate(inst1, inst2, node.rel_id, node.phrase.replace("'", ''))
     
     def accept_RelateUsingNode(self, node):
-        from_inst = self.symtab.find_symbol(node.from_variable_name)
-        to_inst = self.symtab.find_symbol(node.to_variable_name)
-        using_inst = self.symtab.find_symbol(node.using_variable_name)
+        from_inst = self.find_instance(node.from_variable_name)
+        to_inst = self.find_instance(node.to_variable_name)
+        using_inst = self.find_instance(node.using_variable_name)
         
         xtuml.relate(from_inst, using_inst, node.rel_id, node.phrase.replace("'", ''))
         xtuml.relate(using_inst, to_inst, node.rel_id, node.phrase.replace("'", ''))
         
     def accept_UnrelateNode(self, node):
-        inst1 = self.symtab.find_symbol(node.from_variable_name)
-        inst2 = self.symtab.find_symbol(node.to_variable_name)
+        inst1 = self.find_instance(node.from_variable_name)
+        inst2 = self.find_instance(node.to_variable_name)
         
         xtuml.unrelate(inst1, inst2, node.rel_id, node.phrase.replace("'", ''))
         
     def accept_UnrelateUsingNode(self, node):
-        from_inst = self.symtab.find_symbol(node.from_variable_name)
-        to_inst = self.symtab.find_symbol(node.to_variable_name)
-        using_inst = self.symtab.find_symbol(node.using_variable_name)
+        from_inst = self.find_instance(node.from_variable_name)
+        to_inst = self.find_instance(node.to_variable_name)
+        using_inst = self.find_instance(node.using_variable_name)
         
         xtuml.unrelate(from_inst, using_inst, node.rel_id, node.phrase.replace("'", ''))
         xtuml.unrelate(using_inst, to_inst, node.rel_id, node.phrase.replace("'", ''))
